@@ -303,6 +303,39 @@ def impl_shape(a: dict) -> dict:
     return out
 
 
+_DIM = re.compile(r"\[([^|\]]*)\|([^|\]]*)\|([01]+)\]")
+
+
+def _parsed_meaning(ans: str):
+    """The model parser's answer for a shape string without the text of unnamed expression axes: postfix, flags, marker."""
+    if not ans.startswith("OK "):
+        return None
+    head, _, tail = ans[3:].partition(" mi=")
+    dims = []
+    for ident, post, flags in _DIM.findall(head):
+        unnamed_expression = flags[2] == "1" and flags[5] == "0"
+        dims.append((None if unnamed_expression else ident, post, flags))
+    return dims, tail
+
+
+def same_up_to_parentheses(model: Model, mtext: str, itext: str) -> bool:
+    """Do two printed shapes parse (model parser, tied to the implementation's by C05 / C06) to the same postfix programs
+    and flags?  Then they demand the same sizes (evaluate reads d_post only: C18_value_reads_postfix_only); the texts can
+    differ in redundant parentheses only."""
+    a, b = model.ask_many([f"(parse {sx_str(mtext)})", f"(parse {sx_str(itext)})"])
+    ma, mb = _parsed_meaning(a), _parsed_meaning(b)
+    return ma is not None and ma == mb
+
+
+def text_tie(rep: Report, model: Model, mtext, res: dict, rec: dict) -> None:
+    if mtext is None or res["text"] == mtext:
+        return
+    if isinstance(res["text"], str) and same_up_to_parentheses(model, mtext, res["text"]):
+        rep.count("printed_text_differs_same_postfix")
+        return
+    rep.disagreement({"what": "model printer and str(Shape[...]) differ", "model_text": mtext, **rec})
+
+
 def run_shapes(tier: str, rnd, rep: Report, model: Model) -> None:
     n = depth(tier, 500, 20000)
     shapes = [gen_axes(rnd) for _ in range(n)]
@@ -330,8 +363,7 @@ def run_shapes(tier: str, rnd, rep: Report, model: Model) -> None:
             if not (ans.startswith("PRINT_ERR") or neg):
                 rep.violation({"what": f"building / printing the shape raised {res['exn']}", **rec})
             continue
-        if mtext is not None and res["text"] != mtext:
-            rep.disagreement({"what": "model printer and str(Shape[...]) differ", "model_text": mtext, **rec})
+        text_tie(rep, model, mtext, res, rec)
         if "annot" in res:
             rep.count("shape_annotation_" + res["annot"])
             if neg or ans.startswith("PRINT_ERR"):
@@ -402,8 +434,7 @@ def run(tier: str, seed: int, rep: Report, model: Model) -> dict:
             if not (ans.startswith("PRINT_ERR") or neg):
                 rep.violation({"what": f"building / printing the shape raised {res['exn']}", **rec})
             continue
-        if mtext is not None and res["text"] != mtext:
-            rep.disagreement({"what": "model printer and str(Shape[...]) differ", "model_text": mtext, **rec})
+        text_tie(rep, model, mtext, res, rec)
         if "annot" in res:
             rep.count("annotation_" + res["annot"])
             if neg or ans.startswith("PRINT_ERR"):
@@ -464,6 +495,8 @@ def run(tier: str, seed: int, rep: Report, model: Model) -> dict:
             rep.violation({"what": "arithmetic on a constant / anonymous axis was not refused with TypeError", "python": src, "got": got})
         elif not bad and not got.startswith("OK "):
             rep.violation({"what": "an operation between operable operands did not build an axis", "python": src, "got": got})
+        elif got != mtxt and got.startswith("OK ") and mtxt.startswith("OK ") and same_up_to_parentheses(model, mtxt[3:], got[3:]):
+            rep.count("printed_text_differs_same_postfix")
         elif got != mtxt:
             rep.disagreement({"what": "model of the operand dispatch / printer and implementation differ", "python": src, "got": got, "model": mtxt})
     return {}
